@@ -3,6 +3,8 @@
 package c20
 
 import (
+	"fmt"
+	"strings"
 	"testing"
 
 	dtls "github.com/pion/dtls/v3"
@@ -68,6 +70,9 @@ func runCase(t *testing.T, p *world.PKI, sc scen, seed uint64) run.Outcome {
 		v = x.judge()
 		x.pr.CloseAll()
 	})
+	if strings.HasPrefix(setupErr, "skip:") {
+		return run.Outcome{Skip: true, Class: "skipped:" + setupErr[5:]}
+	}
 	if setupErr != "" {
 		return run.Outcome{Violation: "case " + sc.id() + ": setup: " + setupErr, Key: "setup-failed", Class: "SETUP-FAILED"}
 	}
@@ -92,6 +97,13 @@ func withSuite(base *checks.Variant, name string, id dtls.CipherSuiteID) *checks
 	v.Name += "+" + name
 	v.C.Suites = []dtls.CipherSuiteID{id}
 	v.S.Suites = []dtls.CipherSuiteID{id}
+	return &v
+}
+
+func withMTU(base *checks.Variant, mtu int) *checks.Variant {
+	v := *base
+	v.Name = fmt.Sprintf("%s-mtu%d", base.Name, mtu)
+	v.C.MTU, v.S.MTU = mtu, mtu
 	return &v
 }
 
@@ -349,6 +361,14 @@ func enumerate(thorough bool, add0 func(s scen)) {
 					}
 				}
 			}
+		}
+	}
+	// T. a small MTU (the server's NewSessionTicket spans several datagrams) with one of those datagrams lost
+	// once, then operation sequences that need the ticket's message_seq to have been passed
+	small := withMTU(base, 48)
+	for k := 1; k <= 6; k++ {
+		for _, ops := range [][]opKind{{opUsNo, opWs}, {opUsReq, opWs, opWc}, {opUcNo, opWc, opWs}, {opUsNo, opUsNo, opWs}} {
+			add(scen{V: small, Ops: ops, Gap: -1, TicketDrop: k})
 		}
 	}
 	// F. other configurations: connection IDs, other suites
